@@ -70,19 +70,55 @@ Definition row_matches (want got : brow) : bool :=
   wire_eqb (b_uskip want, b_ucnt want, b_uitems want) (b_uskip got, b_ucnt got, b_uitems got) &&
   arg_tag_eqb (b_minh want) (b_minh got) && arg_tag_eqb (b_maxh want) (b_maxh got).
 
-Definition no_skips : skips := {| sk_max := false; sk_min := false; sk_sq := false |}.
+Definition no_skips : skips := skips0.
+(* the harness' metric storage: metric 100+i (i = 1..7) has skip_max_host = bit 0, skip_min_host = bit 1,
+   skip_sum_square = bit 2 of i; no other metric has skip flags *)
+Definition skips_of_metric (m : Z) : skips :=
+  if (101 <=? m) && (m <=? 107)
+  then {| sk_max := Z.testbit (m - 100) 0; sk_min := Z.testbit (m - 100) 1; sk_sq := Z.testbit (m - 100) 2 |}
+  else no_skips.
+
+(* one block of a column: row i is read into the receiver the previous block left at index i *)
+Fixpoint read_rows (fx : bool) (prevs : list arg3) (n : nat) (bs : list Z) : option (list arg3) :=
+  match n with
+  | O => match bs with [] => Some [] | _ => None end
+  | S k => match arg_read fx (hd arg0 prevs) bs with
+           | Some (a, r) => match read_rows fx (tl prevs) k r with Some l => Some (a :: l) | None => None end
+           | None => None
+           end
+  end.
+Fixpoint args_eqb (a : list arg3) (b : list (list Z * Z * Z)) : bool :=
+  match a, b with
+  | [], [] => true
+  | x :: a', y :: b' => arg3_eqb x (arg3_of y) && args_eqb a' b'
+  | _, _ => false
+  end.
+(* DecodeColumn keeps the backing array only when it is large enough; Reset keeps the array *)
+Definition blocks_ok (fx : bool) (rows1 rows2 : list argmm) (o1 o2 : list (list Z * Z * Z)) : bool :=
+  match read_rows fx [] (length rows1) (flat_map enc_arg rows1) with
+  | Some s1 =>
+      args_eqb s1 o1 &&
+      match read_rows fx (if (length rows2 <=? length rows1)%nat then s1 else []) (length rows2) (flat_map enc_arg rows2) with
+      | Some s2 => args_eqb s2 o2
+      | None => false
+      end
+  | None => false
+  end.
 
 Inductive case :=
 (* the real appendKeys + multiValueMarshal on one MultiValue; o_bytes = what they wrote; o_utable = the sketch the
    real ColUnique reader built from those bytes, re-marshalled (table order); o_min/o_max = what the real
    ColArgMin/ColArgMax readers returned *)
 | CRow (strs : list (list Z)) (ts metric : Z) (tags stags : list (Z * Z)) (top : Z) (v : mvs) (sf : Q)
-       (sk : bool * bool * bool) (hv : Z * Z * Z)
+       (lookups : list (Z * mres)) (hv : Z * Z * Z)   (* lookups: the metrics the insert's cache served, this row's last *)
        (o_bytes : list seg) (o_utable : Z * Z * list Z) (o_min o_max : list Z * Z * Z)
 (* requests of several agents through the real handler, then the real rowDataMarshalAppendPositions *)
 | CBody (strs : list (list Z)) (cs : list ctr) (o_body : list seg)
 (* two one-row blocks through one argMin/argMax column object (Reset + DecodeColumn, as ch-go does) *)
 | CBlocks (first second : argmm) (o1 o2 : list Z * Z * Z)
+(* two blocks of several rows through one column object; o1 = the rows of the first block as the API holds them
+   after the second block was decoded, o2 = the rows of the second block *)
+| CBlockRows (rows1 rows2 : list argmm) (o1 o2 : list (list Z * Z * Z))
 | CNone.
 
 Definition body_ok (fxs : bool) (strs : list (list Z)) (cs : list ctr) (o_body : list seg) : bool :=
@@ -95,7 +131,7 @@ Definition body_ok (fxs : bool) (strs : list (list Z)) (cs : list ctr) (o_body :
           let want := body_rows m in
           (zlen want =? zlen user) &&
           forallb (fun w => let '(k, top, v) := w in
-                            match mk_row (str_of strs) no_skips k top v 1 (0, 0, 0) with
+                            match mk_row (str_of strs) (skips_of_metric (k_metric k)) k top v 1 (0, 0, 0) with
                             | Some r => existsb (row_matches r) user
                             | None => false
                             end) want
@@ -104,13 +140,16 @@ Definition body_ok (fxs : bool) (strs : list (list Z)) (cs : list ctr) (o_body :
   | None => false
   end.
 
-Definition ok (c : case) : bool :=
+Definition F (a b c : bool) : mres := MFound {| sk_max := a; sk_min := b; sk_sq := c |}.
+Definition D (a b c : bool) : mres := MDirect {| sk_max := a; sk_min := b; sk_sq := c |}.
+Definition U : mres := MUnknown.
+
+Definition row_ok (fx : bool) (c : case) : bool :=
   match c with
-  | CRow strs ts metric tags stags top v sf sk hv o_bytes o_utable o_min o_max =>
+  | CRow strs ts metric tags stags top v sf lookups hv o_bytes o_utable o_min o_max =>
       let k := {| k_ts := ts; k_metric := metric; k_tags := arr_of tags; k_stags := arr_of stags |} in
-      let '(a, b, c) := sk in
       let bytes := expand o_bytes in
-      match mk_row (str_of strs) {| sk_max := a; sk_min := b; sk_sq := c |} k top (of_mvs v) sf hv with
+      match mk_row (str_of strs) (mc_run fx mcache0 lookups) k top (of_mvs v) sf hv with
       | Some r =>
           zl_eqb (enc_row r) bytes &&
           match dec_row bytes with
@@ -124,6 +163,12 @@ Definition ok (c : case) : bool :=
           end
       | None => false
       end
+  | _ => false
+  end.
+
+Definition ok (c : case) : bool :=
+  match c with
+  | CRow _ _ _ _ _ _ _ _ _ _ _ _ _ _ => row_ok false c || row_ok true c
   | CBody strs cs o_body => body_ok false strs cs o_body || body_ok true strs cs o_body
   | CBlocks first second o1 o2 =>
       match arg_read false arg0 (enc_arg first) with
@@ -133,6 +178,7 @@ Definition ok (c : case) : bool :=
            match arg_read true s1 (enc_arg second) with Some (s2, []) => arg3_eqb s2 (arg3_of o2) | _ => false end)
       | _ => false
       end
+  | CBlockRows rows1 rows2 o1 o2 => blocks_ok false rows1 rows2 o1 o2 || blocks_ok true rows1 rows2 o1 o2
   | CNone => true
   end.
 
